@@ -82,6 +82,9 @@ type Obs struct {
 type Step struct {
 	L Label `json:"l"`
 	O []Obs `json:"o"`
+	// Closed: the system's closed signal (what Shutdown waits for) was set when this step had settled; not compared
+	// with the model (the model's closed flag is compared at the end), used by the C05 monitors
+	Closed bool `json:"closed,omitempty"`
 }
 type Scenario struct {
 	Mailbox string  `json:"mailbox"` // LockFree | GlobalOrderedLockFree
@@ -488,8 +491,12 @@ func (a *scriptActor) OnReceive(ctx vivid.ActorContext) {
 		snd = h.tokenOf(ctx.Sender())
 	}
 	h.emit(Obs{K: "H", A: a.tok, Inst: a.inst, Trig: trig, N: n, Who: who, Serial: serial, Snd: snd})
+	sel := n // what a rule's N selects: the probe number, or for OnTerminated(w) the terminated actor w
+	if trig == "TO" {
+		sel = who
+	}
 	for _, r := range a.role.Rules {
-		if r.On != trig || (r.N != -1 && r.N != n) || (r.Inst != -1 && r.Inst != a.inst) {
+		if r.On != trig || (r.N != -1 && r.N != sel) || (r.Inst != -1 && r.Inst != a.inst) {
 			continue
 		}
 		for _, act := range r.Do {
@@ -646,7 +653,7 @@ func (h *Harness) finishStep(l Label) {
 	if o == nil {
 		o = []Obs{}
 	}
-	h.Steps = append(h.Steps, Step{L: l, O: o})
+	h.Steps = append(h.Steps, Step{L: l, O: o, Closed: h.sys != nil && h.sys.VerifClosed()})
 }
 
 // Do performs one label on the real system and records what was observed.
